@@ -7,7 +7,11 @@ cycles + gc.collect()), re-creating (LIFO reuse), and calling live callbacks thr
 through a cast function pointer and from C (helper .so).  Addresses are canonicalised to
 first-appearance numbers and compared with the Coq model C29.Model.run_case.  Independently of
 the model: live callbacks have pairwise distinct addresses at every moment, and every call ran
-exactly its own function with its own signature (exact result value).
+exactly its own function with its own signature (exact result value).  Self-dropping callbacks
+(entered from C through the bare closure address; the Python function deletes the callback's last
+reference, collects, optionally creates a new callback, then returns / raises) must hand their own
+result / own error value to the C caller: this is what general_invoke_callback's temporary
+Py_INCREF(cb_args) is for (C29/Refs.v: C29_tuple_alive_during_call on the regenerated event list).
 """
 import json
 import os
@@ -601,6 +605,8 @@ class Gen:
         self.ops = []
         self.live = []          # handles
         self.sig = {}
+        self.fid = {}
+        self.cyc = {}
         self.next_h = 1
         self.next_f = 1
 
@@ -609,12 +615,14 @@ class Gen:
         h, f = self.next_h, self.next_f
         self.next_h += 1
         self.next_f += 1
-        sig = rng.choice([0, 0, 1, 2, 3, 4, 5]) if sig is None else sig
+        sig = rng.choice([0, 0, 1, 2, 3, 4, 5, 6, 7]) if sig is None else sig
         if cyc is None:
             cyc = rng.random() < 0.03
         self.ops.append(["create", h, f, sig, bool(cyc)])
         self.live.append(h)
         self.sig[h] = sig
+        self.fid[h] = f
+        self.cyc[h] = bool(cyc)
 
     def drop(self, h=None):
         if not self.live:
@@ -637,12 +645,47 @@ class Gen:
 
     def badcall(self, h=None):
         """invoke a live char32_t/wchar_t/_Bool callback from C with a value convert_to_object rejects"""
-        cands = [x for x in self.live if self.sig[x] >= 3]
+        cands = [x for x in self.live if self.sig[x] in (3, 4, 5)]
         if not cands:
             return None
         h = h if h is not None else self.rng.choice(cands)
         self.ops.append(["badcall", h, self.rng.randrange(3)])
         return h
+
+    def selfdrop(self):
+        """a live int(int) callback is entered from C through its bare address; its Python function drops the
+        callback itself (last reference; gc.collect() for the ones in a cycle), optionally creates a new callback
+        (LIFO: on the closure just freed), then returns / raises"""
+        rng = self.rng
+        # (not the ones in a reference cycle function -> holder -> callback -> info tuple -> function: the running
+        # invocation's own reference to the tuple keeps that whole cycle alive, so nothing is freed during the call)
+        cands = [h for h in self.live if self.sig[h] in (0, 6, 7) and not self.cyc[h]]
+        if not cands:
+            return
+        h = rng.choice(cands)
+        self.live.remove(h)
+        new = None
+        if rng.random() < 0.6:
+            h2, f2, sig2 = self.next_h, self.next_f, rng.choice([0, 6, 6, 7])
+            self.next_h += 1
+            self.next_f += 1
+            new = [h2, f2, sig2]
+            self.live.append(h2)
+            self.sig[h2], self.fid[h2], self.cyc[h2] = sig2, f2, False
+        self.ops.append(["selfdrop", h, rng.randrange(1000), rng.choice(["return", "raise", "raise"]),
+                         rng.choice(["c", "cast"]), new, self.fid[h]])
+
+    def selfdrop_burst(self):
+        rng = self.rng
+        for _ in range(rng.choice([2, 4])):
+            self.create(sig=rng.choice([6, 7, 0]), cyc=False)
+        for _ in range(rng.choice([2, 5, 10])):
+            self.selfdrop()
+            if rng.random() < 0.5:
+                self.create()
+            if rng.random() < 0.3:
+                self.call()
+        self.sweep(1.0 if len(self.live) <= 400 else 0.3)
 
     def badcall_burst(self):
         """bad invocations of a few live callbacks, then new callbacks (whose info tuples would take the place of
@@ -679,10 +722,13 @@ def gen_history(rng, target):
             g.ops.append(["fail"])
         elif k < 0.92:
             g.badcall()
+        elif k < 0.93:
+            g.selfdrop()
         else:
             g.call()
     g.sweep(1.0 if target <= 1500 else 0.4)
     g.badcall_burst()
+    g.selfdrop_burst()
     # phase 2: mass drop in random order, then re-create (LIFO order of the free list)
     victims = rng.sample(g.live, min(len(g.live), rng.choice([5, 40, target // 3 + 1])))
     for h in victims:
@@ -703,9 +749,12 @@ def gen_history(rng, target):
             g.ops.append(["fail"])
         elif k < 0.86:
             g.badcall()
+        elif k < 0.89:
+            g.selfdrop()
         else:
             g.call()
     g.badcall_burst()
+    g.selfdrop_burst()
     # phase 4: drop nearly everything, grow again past the previous high-water mark
     if rng.random() < 0.5:
         for h in rng.sample(g.live, len(g.live) * 9 // 10):
@@ -733,6 +782,10 @@ def c_ops(ops):
                                 # tuple's reference count is C29.Refs; the outputs are checked by predicate())
         if op[0] == "create":
             out.append("Create %s %s" % (cn(op[1]), cn(op[2])))
+        elif op[0] == "selfdrop":         # which function runs; the drop happens during the call; the new callback
+            out += ["Call %s" % cn(op[1]), "Drop %s" % cn(op[1])]
+            if op[5]:
+                out.append("Create %s %s" % (cn(op[5][0]), cn(op[5][1])))
         elif op[0] == "fail":
             out.append("CreateFail")
         elif op[0] == "drop":
@@ -751,6 +804,12 @@ def canon_outs(outs):
             if o[1] not in seen:
                 seen[o[1]] = len(seen)
             res.append("CAddr %s" % cn(seen[o[1]]))
+        elif o[0] == "selfdrop":
+            res += ["CFn %s" % cn(o[1]) if o[1] >= 0 else "CBad", "CBad" if o[4] else "CNone"]
+            if o[3]:
+                if o[3] not in seen:
+                    seen[o[3]] = len(seen)
+                res.append("CAddr %s" % cn(seen[o[3]]))
         elif o[0] == "fn":
             res.append("CFn %s" % cn(o[1]) if o[1] >= 0 else "CBad")
         elif o[0] == "none":
@@ -774,16 +833,45 @@ def predicate(case, outs):
                 continue
             if o[1] in by_addr:
                 bad.append(("new callback got address %#x which live callback #%d still has" % (o[1], by_addr[o[1]]), i))
-            live[op[1]] = (o[1], op[2])
+            live[op[1]] = (o[1], op[2], op[3])
             by_addr[o[1]] = op[1]
         elif op[0] == "drop":
-            a, _ = live.pop(op[1], (None, None))
+            a = live.pop(op[1], (None, None, None))[0]
             if by_addr.get(a) == op[1]:
                 del by_addr[a]
+        elif op[0] == "selfdrop":
+            _, h, x, mode, route, new, _fid = op
+            if h not in live:
+                continue
+            a, fid, sig = live.pop(h)
+            if by_addr.get(a) == h:
+                del by_addr[a]
+            what = "callback #%d (function %d) entered from C, dropping itself while running and then %s" % (
+                h, fid, "returning" if mode == "return" else "raising")
+            if o[0] != "selfdrop":
+                bad.append(("%s: %r" % (what, o), i))
+                continue
+            _, ran, r, new_addr, still = o
+            want = fid * 7919 + x if mode == "return" else (0 if sig == 0 else -(1000 + fid))
+            if ran != fid:
+                bad.append(("%s: function %d ran" % (what, ran), i))
+            elif r != want:
+                bad.append(("%s: its C caller got %d instead of %s %d%s" % (
+                    what, r, "the result" if mode == "return" else "its own error value", want,
+                    " (that is the error value of the callback created meanwhile)"
+                    if new and mode == "raise" and r == (0 if new[2] == 0 else -(1000 + new[1])) and r != want else ""), i))
+            if new:
+                if not new_addr:
+                    bad.append(("%s: creating callback #%d inside it failed" % (what, new[0]), i))
+                    continue
+                if new_addr in by_addr:
+                    bad.append(("new callback got address %#x which live callback #%d still has" % (new_addr, by_addr[new_addr]), i))
+                live[new[0]] = (new_addr, new[1], new[2])
+                by_addr[new_addr] = new[0]
         elif op[0] == "call":
             if op[1] not in live:
                 continue
-            a, fid = live[op[1]]
+            a, fid, _sig = live[op[1]]
             if o[0] != "fn":
                 bad.append(("calling live callback #%d (%s route) raised %r" % (op[1], op[3], o), i))
             elif o[1] != fid or not o[2]:
@@ -918,6 +1006,12 @@ def consistent(ops):
             live.discard(op[1])
         elif op[0] in ("call", "badcall") and op[1] not in live:
             continue
+        elif op[0] == "selfdrop":
+            if op[1] not in live:
+                continue
+            live.discard(op[1])
+            if op[5]:
+                live.add(op[5][0])
         out.append(op)
     return out
 
@@ -936,7 +1030,9 @@ def shrink(ctx, case, kind, out=None):
     if kind == "model" and out is not None:
         i = first_diff(case, out)
         if i is not None:
-            pos = [k for k, op in enumerate(case["ops"]) if op[0] != "badcall"]     # the model skips badcalls
+            pos = []                                  # the model skips badcalls; a selfdrop is 2 or 3 model ops
+            for k, op in enumerate(case["ops"]):
+                pos += [k] * (0 if op[0] == "badcall" else (3 if op[5] else 2) if op[0] == "selfdrop" else 1)
             if i < len(pos):
                 case = dict(ops=case["ops"][:pos[i] + 1])
 
@@ -951,7 +1047,7 @@ def shrink(ctx, case, kind, out=None):
             return bool(predicate(c, out["outs"]))
         bad, _, err = model_check([(c, out)])
         return bool(bad)
-    return dict(ops=consistent(ddmin(list(case["ops"]), fails, max_rounds=40 if kind != "model" else 16)))
+    return dict(ops=consistent(ddmin(list(case["ops"]), fails, max_rounds=24 if kind != "model" else 16)))
 
 
 def evaluate(ctx, cases):
@@ -976,7 +1072,9 @@ def evaluate(ctx, cases):
     for case in cases:
         out, died = run_one(ctx, case)
         if died:
-            small = shrink(ctx, case, "crash") if not ctx.replay_mode else case
+            # (only the first crash is shrunk: every attempt is a fresh process and a mutant that crashes once
+            # crashes in most histories)
+            small = shrink(ctx, case, "crash") if not ctx.replay_mode and not ctx.violations else case
             ctx.violation(small, "process died (rc=%s) near operation %d of a callback create/drop/call history"
                           % died)
             continue
@@ -1001,6 +1099,13 @@ def evaluate(ctx, cases):
                 seen.add(o[1])
             elif op[0] == "drop":
                 alive -= 1
+            elif op[0] == "selfdrop" and o[0] == "selfdrop":
+                alive -= 0 if op[5] else 1
+                ctx.nontrivial(("selfdrop", len(done), op[1]))
+                ctx.hist("selfdrop", "%s%s" % (op[3], "+create" if op[5] else ""))
+                if op[5] and o[3] in seen:
+                    reuse += 1
+                seen.add(o[3])
         per_page = out["geom"]["pagesize"] // out["geom"]["blocksize"]
         ctx.hist("peak_alive", peak)
         ctx.hist("pages_crossed(peak/%d)" % per_page, peak // per_page)
@@ -1034,21 +1139,35 @@ def run(ctx):
                        "11,15,20,27.. pages), with drops in random order (3% of callbacks in a reference cycle, freed by "
                        "gc.collect()), failed variadic creations, mass drop + re-creation, churn at the list head, "
                        "drop-to-10% and regrowth; live callbacks are called (three signatures; through the cdata, through "
-                       "a cast function pointer, from a C helper) in sweeps over all live ones. Non-trivial = a creation "
-                       "that reused a freed closure, or a call of a live callback in a history that crossed a page "
-                       "boundary (distinct by history, handle, route). evaluations = operations executed.")
+                       "a cast function pointer, from a C helper) in sweeps over all live ones; self-dropping callbacks "
+                       "(entered from C, drop themselves + gc.collect(), optionally create a callback on the freed "
+                       "closure, return / raise; error values -(1000+fid), with/without onerror) in every phase and in "
+                       "bursts. Non-trivial = a creation that reused a freed closure, a self-drop, or a call of a live "
+                       "callback in a history that crossed a page boundary (distinct by history, handle, route). "
+                       "evaluations = operations executed.")
     ctx.assumptions += [
         "coq/C29/Gen.v: the assignments to allocate_num_pages / count, the mmap() size and the threading-loop bound of "
         "more_core(), regenerated from src/c/malloc_closure.h (POSIX #ifdef branch) by a fail-closed statement parser; "
         "C29_gen_threaded_inside_mapping and C29_gen_matches_model are re-proved on it each run; if they break, "
         "first_overflow on the regenerated program gives the number of live callbacks at which it manifests and the "
         "bulk test is run with that many",
-        "coq/C29/GenInvoke.v: Py_INCREF/Py_DECREF of the callback's info tuple, the `goto error` exits, done:/error: "
-        "labels, return and goto done of general_invoke_callback(), regenerated in source order (fail closed); "
-        "C29_gen_invoke_paths_balanced (every path leaves the count unchanged and never below) is re-proved on it and "
-        "C29_tuple_alive_while_live / C29_invoke_runs_own (C29/Refs.v) depend on it; exercised by invocations from C "
-        "with arguments convert_to_object rejects (char32_t/wchar_t above 0x10FFFF, _Bool bytes other than 0/1), "
-        "followed by new callbacks and re-calls of every live one",
+        "coq/C29/GenInvoke.v: the events of general_invoke_callback() regenerated in source order (fail closed): "
+        "Py_INCREF/Py_DECREF of the info tuple cb_args, every read of cb_args or through a pointer borrowed from it "
+        "(GUse; borrowed locals found by following x = PyTuple_GET_ITEM(borrowed, i) / x = borrowed->field), every "
+        "call-out during which Python code may run (GCall: every called function outside a short known-pure list), the "
+        "`goto error` exits, done:/error: labels, return and goto done; the two arms of an if/else are listed one after "
+        "the other (over-approximation). C29_gen_invoke_paths_balanced and C29_gen_invoke_held_at_uses are re-proved "
+        "on it each run and C29_tuple_alive_during_call / C29_no_use_after_free / C29_tuple_alive_while_live / "
+        "C29_invoke_runs_own (C29/Refs.v) are instantiated with it: removing or misplacing the INCREF/DECREF pair "
+        "breaks C29_gen_invoke_held_at_uses. Exercised by invocations from C with arguments convert_to_object "
+        "rejects (char32_t/wchar_t above 0x10FFFF, _Bool bytes other than 0/1) and by SELF-DROPPING callbacks: entered "
+        "from C through the bare closure address, the Python function deletes the callback's last reference, runs "
+        "gc.collect(), (60%) creates a new callback (which must get the closure just freed: compared with the model as "
+        "Call; Drop; Create), allocates 4-tuples whose item 2 is a recognisable bytes object, then returns or raises; "
+        "the C caller must get the own result / the own error value (error=-(1000+fid), with and without onerror)",
+        "C29/Refs.v is a hand model of the reference counting (tuple identities, suspension at call-outs); only its "
+        "event list is tied to the source; that CPython frees a 4-tuple at count 0 and hands its memory to the next "
+        "4-tuple is what makes the self-drop stream observe a missing INCREF (tuple free list, CPython 3.12)",
         "hand-written model C29/Model.v of malloc_closure.h + b_callback/cdataowninggc_dealloc; tied by this "
         "run's differential histories (addresses compared as first-appearance numbers)",
         "mmap() returns memory disjoint from every earlier mapping (built into the (block, slot) addresses)",
@@ -1062,18 +1181,38 @@ def run(ctx):
 
 MANIFEST = dict(
     technique="Coq proof (allocator invariant by induction over all create/fail/drop/call histories, unbounded "
-              "page growth; the arithmetic of more_core() regenerated from the source text on every run and proved "
-              "to keep every threaded item inside the mapped block) + differential histories on real callbacks "
-              "crossing page boundaries + > 20000 callbacks alive at once",
-    text="Proof: in the model of malloc_closure.h (free_list, more_core growth, alloc/free) and of b_callback / "
-         "cdataowninggc_dealloc, every reachable state has a duplicate-free free list disjoint from the "
-         "duplicate-free set of live closure addresses; each allocation returns an address no live callback has; "
-         "from creation to drop, calling a callback runs the function it was created with (user_data binding); "
-         "reuse is LIFO; the error path of ffi.callback() returns the closure. The bound object is the infotuple "
-         "(signature + function), so 'own function with own signature' is one binding in the model; that calling "
-         "from C, through the cdata and through a cast pointer all reach that binding (libffi, cdata_call) is decided "
-         "by the correspondence run only (exact result values for three signatures). Tied to the code by random histories "
-         "with thousands alive, calls through the cdata, a cast pointer and from C.",
-    note="Trusted: Coq kernel; hand model C29/Model.v (differential tie); mmap freshness; libffi trampolines; "
-         "gcc for the C helper; CPython refcounting/gc.collect(). Theorems closed under the global context.",
+              "page growth; reference-count layer with invocations suspended at call-outs, by induction over all "
+              "histories including a callback dropped while it runs; the arithmetic of more_core() and the "
+              "INCREF/DECREF/use/call-out events of general_invoke_callback() regenerated from the source text on every "
+              "run) + differential histories on real callbacks crossing page boundaries, self-dropping callbacks, "
+              "> 20000 callbacks alive at once",
+    text="Proof (C29/Model.v, Proofs.v; hand model of malloc_closure.h free_list / more_core / alloc / free and of "
+         "b_callback / cdataowninggc_dealloc): C29_invariant (free list and live closure addresses duplicate-free and "
+         "disjoint, inside mapped blocks, user_data binding), C29_create_fresh, C29_live_distinct, "
+         "C29_call_runs_creator (from creation to drop a call runs the function it was created with), C29_lifo_reuse, "
+         "C29_create_fail_no_leak, C29_grows_only_when_empty, C29_growth_amount. On the REGENERATED more_core() text "
+         "(C29/Gen.v): C29_gen_threaded_inside_mapping, C29_gen_matches_model, C29_gen_no_overflow. On the REGENERATED "
+         "event list of general_invoke_callback() (C29/GenInvoke.v): C29_gen_invoke_paths_balanced (every path leaves "
+         "the tuple's count unchanged, never below) and C29_gen_invoke_held_at_uses (on every path the function holds "
+         "its own reference at every call-out and, from the first call-out on, at every read of the tuple or through "
+         "a pointer borrowed from it; it holds none at return). Reference-count layer (C29/Refs.v, hand model; tuples "
+         "have identities, invocations are suspended at every call-out: RInvokeEnter / RInvokeExit with any operation "
+         "in between — Drop of the running callback, creations re-using its closure address, nested/recursive "
+         "invocations): C29_tuple_alive_during_call (every invocation in flight has its tuple allocated, count >= 1), "
+         "C29_no_use_after_free (no path ever touches a freed tuple), C29_held_at_uses_suffices (both follow from "
+         "held_at_uses of ANY event list), C29_tuple_alive_while_live, C29_invoke_runs_own. Examples (finite "
+         "computations): C29_example_self_drop, C29_example_no_incref_is_caught (the event list without INCREF/DECREF "
+         "is balanced, not held, and the model run reads a freed tuple), C29_example_unbalanced_path, "
+         "C29_example_overflow_found, C29_example. The bound object is the infotuple (signature + function), so 'own "
+         "function with own signature' is one binding in the model; that calling from C, through the cdata and through a "
+         "cast pointer all reach that binding (libffi, cdata_call) is decided by the correspondence run only (exact "
+         "result values for three signatures). Correspondence only: allocator model vs real histories (addresses as "
+         "first-appearance numbers), self-dropping callbacks (own result / own error value at the C caller, closure "
+         "re-used by the callback created meanwhile), unconvertible arguments, bulk run.",
+    note="Trusted: Coq kernel; hand models C29/Model.v (differential tie) and C29/Refs.v (only its event list is "
+         "regenerated; Drop = one decrement + user_data cleared; cdataowninggc_clear, b_callback's user_data = NULL "
+         "and its user_data != infotuple check are not separate operations); the known-pure function list of "
+         "translate_invoke; mmap freshness; libffi trampolines; gcc for the C helper; CPython refcounting, "
+         "gc.collect() and tuple free list. Not regenerated: cffi_closure_alloc/free list statements (threading "
+         "loop body matched fail-closed). Theorems closed under the global context.",
     design_ref="DESIGN.md §4 C29")
